@@ -902,7 +902,11 @@ def design_generic(r, name):
     fallible = r.random() < 0.3
     pre = "try_" if fallible else ""
     sgens = [x for x, on in (("'a", has_lt), ("T", has_t)) if on]
-    S = "S" + ("<" + ", ".join(sgens) + ">" if sgens else "")
+    # how S declares its parameters: bare names (bounds in a where_clause), or bounds / defaults written inline
+    # (`T: Clone`, `T: Clone = i64`) — the impls have to apply S by the bare names either way (fix 6f54c9a)
+    inline = has_t and r.random() < 0.5
+    sdecl = [("'a" if x == "'a" else ("T: Clone" + (" = i64" if r.random() < 0.4 else "")) if inline else x) for x in sgens]
+    S = "S" + ("<" + ", ".join(sdecl) + ">" if sdecl else "")
 
     def cpath(base, with_b):
         args = (["'b"] if with_b else []) + sgens
@@ -937,7 +941,7 @@ def design_generic(r, name):
             attrs.append(f"#[ghosts({c}| ph: {{ std::marker::PhantomData }})]")
         else:
             attrs.append(f"#[{pre}map({c}{err})]" + (f" #[{pre}into_existing({c}{err})]" if r.random() < 0.4 else ""))
-    if has_t:
+    if has_t and not (inline and r.random() < 0.5):
         if two and r.random() < 0.5:
             # a default clause and one dedicated to B, in either order; both give what the by-reference impls need
             wc = ["#[where_clause(T: Clone)]", f"#[where_clause({cpath_once('B', False)}| T: Clone + Sized)]"]
